@@ -1,7 +1,7 @@
 (* Properties/C02.v — One addressing scheme: flatten, lookup, search and JSON pointers agree. *)
 From Coq Require Import List String Bool ZArith Arith Permutation.
 From YT Require Import Base.Str Base.KV Model.Doc Model.Dom Model.Pointer Model.Path Model.Builder
-  Proofs.StrProofs Proofs.PathProofs Proofs.PropsPathProofs Proofs.FrameProofs Proofs.RebuildProofs.
+  Proofs.StrProofs Proofs.PathProofs Proofs.PropsPathProofs Proofs.FrameProofs Proofs.RebuildProofs Proofs.FlattenMapProofs Proofs.RebuildExactProofs.
 Import ListNotations.
 Local Open Scope list_scope.
 
@@ -42,6 +42,19 @@ Theorem C02_render_steps_inj : forall k r k' r',
   render_steps (K k :: r) = render_steps (K k' :: r') -> K k :: r = K k' :: r'.
 Proof. exact render_steps_inj. Qed.
 Print Assumptions C02_render_steps_inj.
+
+(* The flattened view is a map: no path occurs twice, a path determines its value (so the list of
+   pairs of the model and the Go map are the same object), and no position is listed twice. *)
+Theorem C02_flatten_paths_nodup : forall kvs,
+  wf (Con kvs) = true -> keys_safe (Con kvs) = true -> NoDup (map fst (flatten (Con kvs))).
+Proof. exact flatten_paths_nodup. Qed.
+Print Assumptions C02_flatten_paths_nodup.
+
+Theorem C02_flatten_functional : forall kvs p v1 v2,
+  wf (Con kvs) = true -> keys_safe (Con kvs) = true ->
+  In (p, v1) (flatten (Con kvs)) -> In (p, v2) (flatten (Con kvs)) -> v1 = v2.
+Proof. exact flatten_functional. Qed.
+Print Assumptions C02_flatten_functional.
 
 (* Search returns exactly the flattened paths whose value satisfies the predicate. *)
 Theorem C02_search_spec : forall f d p,
@@ -97,10 +110,16 @@ Theorem C02_positions_diverge : forall d s1 v1 s2 v2,
 Proof. exact flatten_steps_diverge. Qed.
 Print Assumptions C02_positions_diverge.
 
-(* Not proved (decided by the correspondence on every run: the rebuilt document's whole Flatten is
-   compared): the converse half of the rebuild statement — starting from the EMPTY document, and
-   when every list item contains a scalar, the rebuilt document has no other leaves (no stray
-   padding nulls remain). *)
+(* ... and, starting from the EMPTY document, the rebuilt document has no other leaves: the flattened
+   views are equal as sets of (path, leaf) pairs — i.e. as Go maps — for every document in which
+   every list item contains at least one scalar (`eis`; without it a padding null would remain where
+   the original has an empty container or list as a list item). *)
+Theorem C02_rebuild_any_order_exact : forall kvs (l : list (string * scalar)),
+  wf (Con kvs) = true -> keys_safe (Con kvs) = true -> eis (Con kvs) = true ->
+  Permutation l (flatten (Con kvs)) ->
+  forall e, In e (flatten (Con (fold_left put_path l []))) <-> In e (flatten (Con kvs)).
+Proof. exact rebuild_any_order_exact. Qed.
+Print Assumptions C02_rebuild_any_order_exact.
 
 (* non-vacuity: a list in a list in a list, digit-only keys *)
 Example C02_ex :
@@ -109,5 +128,5 @@ Example C02_ex :
   wf d = true /\ keys_safe d = true /\
   flatten d = [("12[0][0][0]"%string, SInt 1); ("12[0][0][1]"%string, SInt 2); ("12[0][1][0]"%string, SInt 3);
                ("a.b[0].c"%string, SNull)] /\
-  lookup "12[0][1][0]" d = Some (Leaf (SInt 3)).
+  lookup "12[0][1][0]" d = Some (Leaf (SInt 3)) /\ eis d = true.
 Proof. vm_compute. repeat split; reflexivity. Qed.
